@@ -3,7 +3,7 @@ import GramModel.Lemmas.Print
 import GramModel.Lemmas.PrintDerives
 import GramModel.Lemmas.PrintLex
 import GramModel.Lemmas.ParsePrinted22
-import GramModel.Lemmas.ParseComplete3
+import GramModel.Lemmas.ParseComplete5
 
 /-!
 # C16 — printed terms read back as the same term (the printer side)
@@ -905,12 +905,50 @@ theorem C16_accepted_iff_sentence_operators : C16_accepted_iff_sentence_operator
     obtain ⟨r, st, hr, _, hn, hce, _⟩ := PModel.parse_complete_simple hS h
     exact ⟨r, st, hr, hn, hce⟩
 
-/-- General completeness, full statement (PENDING: proved for the operator sublanguage, `C16_parse_complete_operators`;
-stages 2 and 3 — binders, arrows, conditionals, definitions — need, at the `jumbo_term` and `term` choices, that the
-alternatives before the right one fail on a sentence although `parse_let`/`parse_if`/`parse_group` recover instead of failing
-once committed; the grammar-level facts for that are in Lemmas/Unambiguous.lean: `conflict_paren`, `jumbo_ident_next`,
-`small_ident_next`, `open_open`, `giant_open`). -/
+/-- **General completeness of the parser model w.r.t. `grammar.y`** (the missing direction of C07): every sentence of
+`term` — any token sequence with a derivation `SegT toks .term 0 toks.size t` — is accepted by the parse phase, which returns
+exactly the parse tree `t` of the sentence (unique by `C07_unambiguous`), consumes every token, records no error and is
+confident.  Induction on the length of the segment and up the precedence tower (`PModel.compG`): for a tower nonterminal `A`,
+a maximal derivation (`the token after it is not in `Unamb.ext A`, `C07_extension_law`) is what `parse_A` returns; at each
+ordered choice the alternatives tried before the right one fail on a sentence: by operator or first-token mismatch; on
+`( x : J ) -> T` the λ-function parses `J` and fails at the arrow; at an atom `( x : A = d ; b )` both `(`-binder functions
+fail at `=` (`PModel.nb_atoms`, with `jumbo_ident_next` of Lemmas/Unambiguous.lean); `parse_let` fails before a `jumbo_term`
+because an identifier followed by `:` or `=` cannot start one (`jumbo_ident_next`); `a -> b` fails after a `giant_term`
+because `parse_small_term` stops at its end or before an operator (`PModel.SmallInfo`).  The recovering functions
+(`parse_let`, `parse_if`, `parse_group`) are never committed wrongly on a sentence. -/
 def C16_parse_complete_stmt : Prop :=
   ∀ (toks : Array PModel.PTok) (t : PModel.Src), PModel.SegT toks .term 0 toks.size t →
     ∃ r st, PModel.runParser toks = some (r, st) ∧ r.term = t ∧ r.next = toks.size ∧
       PModel.collectErrors r.term = [] ∧ r.confident = true
+theorem C16_parse_complete : C16_parse_complete_stmt := fun _ _ h => PModel.parse_complete h
+
+/-- non-vacuity: the one-token program `x` (and see `C16_parse_printed`: every printed term is a sentence) -/
+example : ∃ (toks : Array PModel.PTok) (t : PModel.Src), PModel.SegT toks .term 0 toks.size t :=
+  ⟨#[⟨.identifier 1, ⟨0, 1⟩⟩], _,
+   .unit (B := .jumboTerm) (by decide) (.unit (B := .giantTerm) (by decide) (.unit (B := .hugeTerm) (by decide)
+     (.unit (B := .largeTerm) (by decide) (.unit (B := .mediumTerm) (by decide) (.unit (B := .smallTerm) (by decide)
+       (.unit (B := .atom) (by decide) (.unit (B := .variable) (by decide)
+         (.var (x := 1) ⟨by decide, rfl⟩))))))))⟩
+
+/-- **Accepted iff sentence**: the parse phase consumes every token without recording an error exactly when the token
+sequence is a sentence of `term` of `grammar.y`; the tree returned is then the parse tree of the sentence. -/
+def C16_accepted_iff_sentence_stmt : Prop :=
+  ∀ (toks : Array PModel.PTok),
+    ((∃ r st, PModel.runParser toks = some (r, st) ∧ r.next = toks.size ∧ PModel.collectErrors r.term = []) ↔
+      ∃ t, PModel.SegT toks .term 0 toks.size t) ∧
+    (∀ r st t, PModel.runParser toks = some (r, st) → PModel.SegT toks .term 0 toks.size t → r.term = t)
+theorem C16_accepted_iff_sentence : C16_accepted_iff_sentence_stmt := by
+  intro toks
+  refine ⟨⟨?_, ?_⟩, ?_⟩
+  · rintro ⟨r, st, hr, hn, hce⟩
+    have := PModel.runParser_spans hr hce
+    rw [hn] at this
+    exact ⟨_, this⟩
+  · rintro ⟨t, h⟩
+    obtain ⟨r, st, hr, _, hn, hce, _⟩ := PModel.parse_complete h
+    exact ⟨r, st, hr, hn, hce⟩
+  · intro r st t hr h
+    obtain ⟨r', st', hr', ht, _⟩ := PModel.parse_complete h
+    rw [hr] at hr'
+    cases hr'
+    exact ht
